@@ -1,4 +1,4 @@
-import FimVerif.Proofs.Lemmas.TopoAtomicRemove
+import FimVerif.Proofs.Lemmas.TopoAtomicExt
 /-!
 # C09 — a topology-building call that raises leaves the model unchanged
 
@@ -309,6 +309,69 @@ theorem atomic_op (op : TopoOp) (s : Topo) (hcov : Covered op s) (hf : failed (s
 example : Covered (.addLink .experiment 0 "l1" none (some "Patch") (some [.iface (.user "i1") "i1"]) none [])
     ⟨[⟨.connectionPoint, .user "i1", "i1", "TrunkPort", []⟩], []⟩ := by
   show IdsDistinct _; decide
+
+
+/-! ## the second alphabet (`Topo.XOp`): sub-interfaces, peering, port mirroring, `model_type=` components -/
+
+/-- `Interface.add_child_interface`: the type assertion, the name / vlan checks against the handle's child list (a stale
+child handle included) and the parent's labels are all read before the SubInterface is created -/
+theorem atomic_addChildInterface (fl : Flavour) (c : Nat) (port : Nid) (cache : Cache) (name : String) (nid : Option Nid)
+    (vlan : Option String) (tbl : List (String × String)) (props : List PropArg) :
+    Atomic (addChildInterface fl c port cache name nid vlan tbl props) := by
+  unfold addChildInterface
+  refine Atomic.bind_readOnly (by ro) (fun _ => ?_)
+  refine Atomic.bind_readOnly (by ro) (fun _ => ?_)
+  refine Atomic.bind_readOnly (by ro) (fun _ => ?_)
+  refine Atomic.bind_readOnly (by ro) (fun _ => ?_)
+  refine Atomic.bind_readOnly (by ro) (fun _ => ?_)
+  refine Atomic.bind_readOnly (by ro) (fun _ => ?_)
+  refine Atomic.bind_readOnly (by ro) (fun _ => ?_)
+  refine Atomic.bind_readOnly (by ro) (fun _ => ?_)
+  exact Atomic.bind_total (atomic_ifaceNew ..) (fun _ => total_pure _)
+
+/-- `add_port_mirror_service`: the two assertions, then the service constructor with its rollback -/
+theorem atomic_addPortMirror (fl : Flavour) (c : Nat) (a : SvcArgs) (toOk fromOk : Bool) (s : Topo)
+    (hd : IdsDistinct s) (hc : Closed s) (hfresh : ∀ m ∈ s.nodes, ∀ k, c ≤ k → m.nid ≠ .gen k)
+    (hnid : ∀ k, c ≤ k → a.nid ≠ some (.gen k)) (hifs : IfsAll s (pick a.nid c).1 c a.ifs)
+    (hf : failed (addPortMirror fl c a toOk fromOk s)) : (addPortMirror fl c a toOk fromOk s).2 = s := by
+  unfold addPortMirror at hf ⊢
+  revert hf
+  refine ro_step (Q := FS s) (by ro) FS.err (fun _ _ => ?_)
+  refine ro_step (Q := FS s) (by ro) FS.err (fun _ _ => ?_)
+  exact svcNew_atomic fl c none a s hd hc hfresh hnid (fun _ h => by cases h) hifs
+
+/-- `add_component(model_type=…)` with library-generated ids for the component's service and interfaces -/
+theorem atomic_addComponentMT (fl : Flavour) (c : Nat) (parent : Nid) (a : CompArgs) (mt : String × String) (s : Topo)
+    (hfresh : ∀ m ∈ s.nodes, ∀ k, c ≤ k → m.nid ≠ .gen k) (hnid : ∀ k, c ≤ k → a.nid ≠ some (.gen k))
+    (hgen : a.ifNids = none ∧ a.nsNid = none)
+    (hf : failed (addComponentMT fl c parent a mt s)) : (addComponentMT fl c parent a mt s).2 = s := by
+  unfold addComponentMT at hf ⊢
+  revert hf
+  refine ro_step (Q := FS s) (by ro) FS.err (fun _ _ => ?_)
+  refine ro_step (Q := FS s) (by ro) FS.err (fun _ _ => ?_)
+  exact compNewMT_atomic fl c parent a mt s hfresh hnid hgen
+
+/-- the guard of `atomic_xop` -/
+def CoveredX : XOp → Topo → Prop
+  | .addChildInterface _ _ _ _ _ _ _ _ _, _ => True
+  | .addPortMirror _ c a _ _, s => IdsDistinct s ∧ Closed s ∧ FreshArgs c s a.nid ∧ IfsAll s (pick a.nid c).1 c a.ifs
+  | .addComponentMT _ c _ a _, s => FreshArgs c s a.nid ∧ a.ifNids = none ∧ a.nsNid = none
+  | _, _ => False
+
+/-- for every call of the second alphabet that the guard admits and every state: a raise leaves the model unchanged -/
+theorem atomic_xop (op : XOp) (s : Topo) (hcov : CoveredX op s) (hf : failed (stepX op s)) : (stepX op s).2 = s := by
+  revert hf
+  cases op with
+  | addChildInterface fl c p ca n i v tb pr => exact FS_bind_pure (fs_of_atomic (atomic_addChildInterface fl c p ca n i v tb pr) s)
+  | addPortMirror fl c a t f =>
+    obtain ⟨h1, h2, ⟨h3, h4⟩, h5⟩ := hcov
+    exact FS_bind_pure (atomic_addPortMirror fl c a t f s h1 h2 h3 h4 h5)
+  | addComponentMT fl c p a mt =>
+    obtain ⟨⟨h1, h2⟩, h3⟩ := hcov
+    exact FS_bind_pure (atomic_addComponentMT fl c p a mt s h1 h2 h3)
+  | removeChildInterface _ _ _ => exact hcov.elim
+  | peer _ _ _ _ _ _ _ => exact hcov.elim
+  | unpeer _ _ => exact hcov.elim
 
 
 /-! ## the known finding behind the exclusion of `addComponent`
